@@ -1,9 +1,11 @@
 import Lean  -- WORKAROUND only: checks/common.py's audit snippet uses `CoreM`/`collectAxioms` without importing Lean; nothing below uses it
-import HqModel.Lemmas.AutoAllocLimits
+import HqModel.Lemmas.AutoAllocTick
 /-!
 # C17 — automatic allocation respects its limits and submits only on demand
 Model: `HqModel.AutoAlloc` (M6). The environment (batch system, scheduler answer, clock, hash orders) is
-universally quantified in every statement.
+universally quantified in every statement. `c17_no_demand` (the scheduler answers "no workers" when no waiting task
+fits the queue's worker type) is a statement about M7 (`compute_new_worker_query`), not about this component: here
+the answer is an arbitrary input.
 -/
 namespace HqModel.C17
 open HqModel.AutoAlloc
@@ -22,7 +24,8 @@ theorem c17_limits (c : Consts) (n : Nat) (s : State) (h : Reach (init c n) s) :
 including the state left behind by a step that panics. -/
 theorem c17_limits_step (s : State) (e : Ev) (h : Inv s) : Inv (step s e).st := step_Inv s e h
 
-/-- Non-vacuity: a concrete reachable state with a queued and a running allocation at the limits. -/
+/-- Non-vacuity: a concrete reachable state with a queued and a running allocation at the limits
+(backlog 2, 3 workers per allocation, at most 4 workers: the second allocation is cut to 1 worker). -/
 example :
     let s0 := init ⟨10, 20, 0⟩ 1
     let s1 := (step s0 (.addQueue ⟨2, 3, some 4⟩ (Limiter.new [0, 1000] 2 3) none)).st
@@ -30,5 +33,108 @@ example :
     let s3 := (step s2 (.workerConnected 1 5)).st
     (s3.queues.map fun q => (q.queuedCount, q.activeWorkers, q.allocs.map (·.target))) = [(1, 4, [3, 1])] := by
   decide
+
+/-- **Silence.** `submit_allocation(x, n)` is called only by a scheduling tick, and only if — in the state before
+the tick — queue `x` exists, is Active, has not reached a failure limit, the back-off delay since its last attempt
+has elapsed (`now - last ≥ delays[level]`), it has space (`has_space_for_submit`), the scheduler answered, the answer
+`resp` that `perform_submits` pairs with `x` is non-empty, and `n` is one of the sizes the permit computed from the
+limits allows (`Queue.permit_spec`: `1 ≤ n ≤ max_workers_per_alloc`, at most `backlog - queued` calls, total at most
+`max_worker_count - active`). `order` is the iteration order of the queue map (duplicate-free). -/
+theorem c17_silent (s : State) (e : Ev) (x n : Nat) (h : Out.submit x n ∈ (step s e).outs) :
+    ∃ now order query results, e = .tick now order query results ∧
+      (order.Nodup →
+        ∃ qu sn mn responses resp p,
+          s.getQueue x = some qu ∧ qu.active = true ∧ qu.lim.limitsReached = false ∧ qu.lim.elapsed now = true ∧
+          qu.hasSpace = true ∧ query = .ok sn mn ∧ mergeMn mn (sn.map fun k => ⟨k, 0, 0⟩) = .ok responses ∧
+          (resp, x) ∈ responses.zip (s.pauseAll.activeIn order) ∧ resp.isEmpty = false ∧
+          qu.permit resp = .ok p ∧ n ∈ p) := by
+  obtain ⟨now, order, query, results, rfl⟩ := submit_only_in_tick s e x n h
+  exact ⟨now, order, query, results, rfl, fun hnd => State.tick_submit s now order query results x n hnd h⟩
+
+/-- Non-vacuity of `c17_silent`: a tick that does call, and the same tick 1 ms too early that does not. -/
+example :
+    let s0 := init ⟨10, 20, 0⟩ 1
+    let s1 := (step s0 (.addQueue ⟨1, 2, none⟩ (Limiter.new [0, 1000] 5 3) none)).st
+    let s2 := (step s1 (.tick 0 [1] (.ok [2] []) [.fail])).st
+    (step s2 (.tick 999 [1] (.ok [2] []) [.ok 7])).outs = [.query 1, .bad "unused-submit-results", .tickRes .ok] ∧
+    (step s2 (.tick 1000 [1] (.ok [2] []) [.ok 7])).outs = [.query 1, .submit 1 2, .evQueued 1 7 2, .tickRes .ok] := by
+  decide
+
+/-- **Pause at the limits.** At the end of every tick (that does not panic) every queue whose consecutive
+submission failures reached `max_submission_fails` or whose consecutive allocation failures reached
+`max_allocation_fails` is Paused. -/
+theorem c17_pause (s : State) (now : Nat) (order : List Nat) (query : Query) (results : List SubRes)
+    (hnp : (step s (.tick now order query results)).panic = none) :
+    ∀ q ∈ (step s (.tick now order query results)).st.queues, q.lim.limitsReached = true → q.active = false :=
+  State.tick_paused s now order query results hnp
+
+/-- **… and stays silent until resumed.** A paused queue stays paused under every event except `resume` of this
+queue (so, by `c17_silent`, nothing is submitted for it). -/
+theorem c17_paused_stays (s : State) (e : Ev) (x : Nat) (q q' : Queue)
+    (hq : s.getQueue x = some q) (hp : q.active = false) (hne : e ≠ .resume x)
+    (hq' : (step s e).st.getQueue x = some q') : q'.active = false := by
+  rcases step_queue s e x q hq with ⟨_, h⟩ | ⟨h, _⟩ | ⟨q2, h, ht⟩
+  · rw [h] at hq'; cases hq'
+  · exact absurd h hne
+  · rw [h] at hq'; cases hq'
+    exact ht.paused hp
+
+/-- Non-vacuity of `c17_pause` / `c17_paused_stays`: two failed submissions with `max_submission_fails = 2`. -/
+example :
+    let s0 := init ⟨10, 20, 0⟩ 1
+    let s1 := (step s0 (.addQueue ⟨1, 1, none⟩ (Limiter.new [0] 2 3) none)).st
+    let s2 := (step s1 (.tick 0 [1] (.ok [1] []) [.fail])).st
+    let s3 := (step s2 (.tick 1 [1] (.ok [1] []) [.err])).st
+    let s4 := (step s3 (.tick 2 [1] (.ok [1] []) [.ok 9])).st
+    (s2.queues.map (·.active), s3.queues.map (·.active), s4.queues.map (·.active),
+      (step s3 (.tick 2 [1] (.ok [1] []) [.ok 9])).outs) = ([true], [false], [false], [.tickRes .skipped]) := by
+  decide
+
+/-- **Resume is live** (code after the fix `cdd9fd1`: `resume()` clears both failure counters — bits 0 and 1 of
+the probed `resumeMask`). After `resume x` — whether the queue was paused by the user or by the safety limits — the
+next tick at which the scheduler's answer paired with `x` is non-empty (demand), the limits leave room (the permit
+computed from backlog / max_worker_count / queued allocations is non-empty: `n :: rest`) and the back-off delay has
+elapsed calls `submit_allocation(x, n)`, unless the autoalloc task panics in this tick.
+Side conditions: both limits are positive (a limit 0 means "never submit"); `order` is duplicate-free. -/
+theorem c17_resume_live (s : State) (x : Nat) (q : Queue) (now : Nat) (order : List Nat)
+    (sn : List Nat) (mn : List (Nat × Nat × Nat)) (results : List SubRes) (responses : List QResp) (resp : QResp)
+    (n : Nat) (rest : List Nat)
+    (hmask : s.consts.resumeMask.testBit 0 = true ∧ s.consts.resumeMask.testBit 1 = true)
+    (hq : s.getQueue x = some q)
+    (hpos : 0 < q.lim.maf ∧ 0 < q.lim.msf)
+    (hnd : order.Nodup)
+    (hmerge : mergeMn mn (sn.map fun k => ⟨k, 0, 0⟩) = .ok responses)
+    (hresp : (resp, x) ∈ responses.zip ((step s (.resume x)).st.pauseAll.activeIn order))
+    (hdemand : resp.isEmpty = false)
+    (hroom : ({ q with active := true, lim := q.lim.onResume s.consts.resumeMask } : Queue).permit resp = .ok (n :: rest))
+    (hel : (q.lim.onResume s.consts.resumeMask).elapsed now = true)
+    (hnp : (step (step s (.resume x)).st (.tick now order (.ok sn mn) results)).panic = none) :
+    Out.submit x n ∈ (step (step s (.resume x)).st (.tick now order (.ok sn mn) results)).outs :=
+  State.resume_tick_live s x q now order sn mn results responses resp n rest hmask hq hpos hnd hmerge hresp hdemand
+    hroom hel hnp
+
+/-- The two witnesses of F13, as model runs: `mask` is what `resume()` resets. -/
+def f13Run (mask : Nat) : List Out :=
+  let s0 := init ⟨10, 20, mask⟩ 1
+  let s1 := (step s0 (.addQueue ⟨1, 1, none⟩ (Limiter.new [0, 1000] 2 3) none)).st
+  let s2 := (step s1 (.tick 0 [1] (.ok [1] []) [.fail])).st
+  let s3 := (step s2 (.tick 1000 [1] (.ok [1] []) [.fail])).st     -- second failure: paused by the limit
+  let s4 := (step s3 (.resume 1)).st
+  (step s4 (.tick 5000 [1] (.ok [1] []) [.ok 1])).outs
+
+/-- **F13 (the code before `cdd9fd1`, `resumeMask = 0`): resume liveness is FALSE.** The queue was paused by
+`max_submission_fails`; `resume` flips the state only; the next tick (demand 1, room, back-off long elapsed)
+pauses it again before anything is submitted. (Replayed on the real code:
+`corpus/autoalloc/f13_resume_submission_fails.trace`.) -/
+theorem c17_resume_live_false_before_fix :
+    (∀ x n, Out.submit x n ∉ f13Run 0) ∧ f13Run 0 = [.tickRes .ok] := by
+  have h : f13Run 0 = [.tickRes .ok] := by decide
+  refine ⟨?_, h⟩
+  intro x n hx
+  rw [h] at hx
+  simp at hx
+
+/-- Non-vacuity of `c17_resume_live` (fixed code, mask 3): the same run submits. -/
+example : f13Run 3 = [.query 1, .submit 1 1, .evQueued 1 1 1, .tickRes .ok] := by decide
 
 end HqModel.C17
